@@ -1,0 +1,339 @@
+//go:build verif
+
+package object
+
+// C05: Go-map iteration in package object is order independent (commutativity obligation per loop), or feeds
+// a slice that is sorted by a total order before it is used.
+
+// Set algebra against the map model (C16): the result is a fresh set whose key set is exactly the union /
+// intersection / difference, each key carrying the element it had in its source set.
+//@ func (*Set).Union
+//@ props C05 C16
+//@ commute 1
+//@ commute 2
+//@ requires s != nil && other != nil
+//@ modifies nothing
+//@ invariant 1: union != nil && !allocated(union) && union.items != nil && !allocated(union.items) && forallA(k, HashKey, haskey(union.items, k) == seen(k) && (seen(k) ==> haskey(s.items, k) && union.items[k] == s.items[k]))
+//@ invariant 2: union != nil && !allocated(union) && union.items != nil && !allocated(union.items) && forallA(k, HashKey, haskey(union.items, k) == (haskey(s.items, k) || seen(k)) && (seen(k) ==> haskey(other.items, k) && union.items[k] == other.items[k]) && (!seen(k) && haskey(s.items, k) ==> union.items[k] == s.items[k]))
+//@ ensures[C16.set.union] result != nil && fresh(result) && forallA(k, HashKey, haskey(result.items, k) == (haskey(s.items, k) || haskey(other.items, k)) && (haskey(other.items, k) ==> result.items[k] == other.items[k]) && (!haskey(other.items, k) && haskey(s.items, k) ==> result.items[k] == s.items[k]))
+
+//@ func (*Set).Intersection
+//@ props C05 C16
+//@ commute 1
+//@ requires s != nil && other != nil
+//@ modifies nothing
+//@ invariant 1: intersection != nil && !allocated(intersection) && intersection.items != nil && !allocated(intersection.items) && forallA(k, HashKey, haskey(intersection.items, k) == (seen(k) && haskey(other.items, k)) && (haskey(intersection.items, k) ==> haskey(s.items, k) && intersection.items[k] == s.items[k]))
+//@ ensures[C16.set.intersection] result != nil && fresh(result) && forallA(k, HashKey, haskey(result.items, k) == (haskey(s.items, k) && haskey(other.items, k)) && (haskey(result.items, k) ==> result.items[k] == s.items[k]))
+
+//@ func (*Set).Difference
+//@ props C05 C16
+//@ commute 1
+//@ requires s != nil && other != nil
+//@ assume[heap.closed] allocated(other.items) && allocated(s.items)
+//@ modifies nothing
+//@ invariant 1: difference != nil && !allocated(difference) && difference.items != nil && !allocated(difference.items)
+//@ invariant 1: allocated(other.items) && allocated(s.items)
+//@ invariant 1: forallA(k, HashKey, haskey(difference.items, k) ==> seen(k) && !haskey(other.items, k) && haskey(s.items, k) && difference.items[k] == s.items[k])
+//@ invariant 1: forallA(k, HashKey, seen(k) && !haskey(other.items, k) ==> haskey(difference.items, k))
+//@ ensures[C16.set.difference] result != nil && fresh(result) && forallA(k, HashKey, haskey(result.items, k) == (haskey(s.items, k) && !haskey(other.items, k)) && (haskey(result.items, k) ==> result.items[k] == s.items[k]))
+
+//@ func NewBuiltinsModule
+//@ props C05 C11
+//@ commute 1
+//@ commute 2
+//@ requires contents != nil
+//@ invariant 1: builtins != nil && !allocated(builtins) && forallA(k, string, haskey(builtins, k) == seen(k) && (seen(k) ==> haskey(contents, k) && builtins[k] == contents[k]))
+//@ invariant 2: m != nil && !allocated(m) && m.builtins == builtins && builtins != nil && !allocated(builtins) && forallA(k, string, haskey(builtins, k) == haskey(contents, k) && (haskey(contents, k) ==> builtins[k] == contents[k])) && forallA(k, string, seen(k) && typeof(builtins[k]) == *Builtin && ref(builtins[k]) != nil ==> builtins[k].(*Builtin).module == m)
+//@ ensures[C11.module.backref] result != nil && fresh(result) && forallA(k, string, haskey(contents, k) && typeof(contents[k]) == *Builtin && ref(contents[k]) != nil ==> contents[k].(*Builtin).module == result)
+//@ ensures[C11.module.contents] forallA(k, string, haskey(result.builtins, k) == haskey(contents, k) && (haskey(contents, k) ==> result.builtins[k] == contents[k]))
+
+// ---- sorted enumeration: the result is a function of the map's key set -------------------------------------
+// sort.Strings: assumed contract (sorted, every element is an old element, distinctness preserved).
+//@ external sort.Strings
+//@ modifies elems(x)
+//@ ensures forall(i, 0, len(x), forall(j, i, len(x), x[i] <= x[j]))
+//@ ensures forall(j, 0, len(x), exists(i, 0, len(x), x[j] == old(x[i])))
+//@ ensures old(forall(i, 0, len(x), forall(j, i + 1, len(x), x[i] != x[j]))) ==> forall(i, 0, len(x), forall(j, i + 1, len(x), x[i] != x[j]))
+
+//@ func (*Map).SortedKeys
+//@ props C05 C16
+//@ requires m != nil
+//@ modifies nothing
+//@ invariant 1: len(keys) == iter && fresh(keys) && forall(j, 0, len(keys), mhas(m, keys[j]) && seen(keys[j])) && forall(i, 0, len(keys), forall(j, i + 1, len(keys), keys[i] != keys[j]))
+//@ ensures[C05.sortedkeys.sorted] forall(i, 0, len(result), forall(j, i, len(result), result[i] <= result[j]))
+//@ ensures[C05.sortedkeys.members] forall(j, 0, len(result), mhas(m, result[j]))
+//@ ensures[C05.sortedkeys.distinct] forall(i, 0, len(result), forall(j, i + 1, len(result), result[i] != result[j]))
+//@ ensures[C05.sortedkeys.all] len(result) == len(m.items)
+
+// Dispositions of every Go-map range loop in this package (a new loop must be added here with a reason):
+//   commute-proved: Map.Copy#1 Map.Update#1 Set.Union#1 Set.Union#2 Set.Intersection#1 Set.Difference#1 NewBuiltinsModule#1 NewBuiltinsModule#2
+//   sorted-after (functional postcondition): Map.SortedKeys#1 Set.SortedItems#1 (sortby); sorted by the caller, not under contract: Keys#1 Map.StringKeys#1
+//   early exit with an order-independent boolean result, not yet under contract: Map.Equals#1 Set.Equals#1
+//   calls into code without contracts (undecided): Map.Interface#1 AsObjects#1 FromGoType#1 MapConverter.To#1 StructConverter.To#1 GoType.attrMap#1 newGoType#1..#3
+//@ scan[C05.maploops.object] C05 maprange object: (*Map).Copy#1 (*Map).Update#1 (*Set).Union#1 (*Set).Union#2 (*Set).Intersection#1 (*Set).Difference#1 NewBuiltinsModule#1 NewBuiltinsModule#2 (*Map).SortedKeys#1 (*Set).SortedItems#1 Keys#1 (*Map).StringKeys#1 (*Map).Equals#1 (*Set).Equals#1 (*Map).Interface#1 AsObjects#1 FromGoType#1 (*MapConverter).To#1 (*StructConverter).To#1 (*GoType).attrMap#1 newGoType#1 newGoType#2 newGoType#3
+
+//@ scan[C12.realos.object] C12 extcalls os.*,os/exec.*,os/user.*,io/ioutil.*,path/filepath.Abs,path/filepath.Glob,path/filepath.Walk,path/filepath.WalkDir,path/filepath.EvalSymlinks,syscall.*,-os.Err*,-os.init,-syscall.init,-os/exec.init,-os/user.init:
+
+// ---- C12: the context helpers of package object add their own keys and keep every other key --------------------
+//@ func WithCallFunc
+//@ props C12
+//@ modifies nothing
+//@ ensures[C12.ctxkeys.call] result != nil && forallA(k, any, k != any(callFuncKey) ==> uf("ctx.val", any, result, k) == uf("ctx.val", any, ctx, k))
+//@ func WithSpawnFunc
+//@ props C12
+//@ modifies nothing
+//@ ensures[C12.ctxkeys.spawn] result != nil && forallA(k, any, k != any(spawnFuncKey) ==> uf("ctx.val", any, result, k) == uf("ctx.val", any, ctx, k))
+//@ func WithCloneCallFunc
+//@ props C12
+//@ modifies nothing
+//@ ensures[C12.ctxkeys.clonecall] result != nil && forallA(k, any, k != any(cloneCallKey) ==> uf("ctx.val", any, result, k) == uf("ctx.val", any, ctx, k))
+
+// A thread runs its callable with the context it was given.
+//@ func NewThread
+//@ trusted
+//@ requires[C12.ctx] ctx != nil && hasos(ctx)
+//@ modcomps H_ E_ M G_ C_
+
+// Fresh contexts in package object: only the Interface() methods of iterators (they drain an already opened
+// iterator; no OS lookup happens under them).
+//@ scan[C12.freshctx.object] C12 extcalls context.Background,context.TODO: (*FileIter).Interface (*IntIter).Interface (*ListIter).Interface (*MapIter).Interface (*SetIter).Interface (*SliceIter).Interface
+
+// Builtins are only ever called with a context that carries an OS (C12): the precondition is an obligation at
+// every call site under contract (vm.callObject); what a builtin does with it is covered by the module scans.
+//@ func (Callable).Call
+//@ trusted
+//@ requires[C12.ctx] ctx != nil && hasos(ctx)
+//@ modcomps H_ E_ M G_ C_
+
+// ---- C09: lock discipline for the shared type registries -----------------------------------------------------
+// Ghost lock state (assumed contracts of package sync): lock.w(m) / lock.r(m) say that the current goroutine
+// holds m for writing / reading. Lock is not re-entrant (taking it again would deadlock).
+//@ external sync.(*RWMutex).Lock
+//@ requires[C09.noreentry] !ghost("lock.w", bool, rw) && !ghost("lock.r", bool, rw)
+//@ modifies ghost("lock.w", bool, rw)
+//@ ensures ghost("lock.w", bool, rw)
+//@ external sync.(*RWMutex).Unlock
+//@ requires[C09.held] ghost("lock.w", bool, rw)
+//@ modifies ghost("lock.w", bool, rw)
+//@ ensures !ghost("lock.w", bool, rw)
+//@ external sync.(*RWMutex).RLock
+//@ requires[C09.noreentry] !ghost("lock.w", bool, rw)
+//@ modifies ghost("lock.r", bool, rw)
+//@ ensures ghost("lock.r", bool, rw)
+//@ external sync.(*RWMutex).RUnlock
+//@ requires[C09.held] ghost("lock.r", bool, rw)
+//@ modifies ghost("lock.r", bool, rw)
+//@ ensures !ghost("lock.r", bool, rw)
+//@ external sync.(*Mutex).Lock
+//@ requires[C09.noreentry] !ghost("lock.w", bool, m)
+//@ modifies ghost("lock.w", bool, m)
+//@ ensures ghost("lock.w", bool, m)
+//@ external sync.(*Mutex).Unlock
+//@ requires[C09.held] ghost("lock.w", bool, m)
+//@ modifies ghost("lock.w", bool, m)
+//@ ensures !ghost("lock.w", bool, m)
+
+//@ guarded typeConverters goTypeMutex
+//@ guarded goTypeRegistry goTypeMutex
+
+//@ func NewTypeConverter
+//@ props C09
+//@ requires !ghost("lock.w", bool, goTypeMutex) && !ghost("lock.r", bool, goTypeMutex) && goTypeMutex != nil
+//@ ensures[C09.released] !ghost("lock.w", bool, goTypeMutex)
+
+//@ func SetTypeConverter
+//@ props C09
+//@ requires !ghost("lock.w", bool, goTypeMutex) && !ghost("lock.r", bool, goTypeMutex) && goTypeMutex != nil
+//@ ensures[C09.released] !ghost("lock.w", bool, goTypeMutex)
+
+//@ func NewGoType
+//@ props C09
+//@ requires !ghost("lock.w", bool, goTypeMutex) && !ghost("lock.r", bool, goTypeMutex) && goTypeMutex != nil
+//@ ensures[C09.released] !ghost("lock.w", bool, goTypeMutex)
+
+// newGoType reads and fills the registry: only under the lock (its callers hold it).
+//@ func newGoType
+//@ props C09
+//@ requires[C09.lock] ghost("lock.w", bool, goTypeMutex)
+//@ modcomps H_ E_ M G_object_typeConverters G_object_goTypeRegistry
+//@ assumeframe
+
+// Everything that touches the registries or calls the functions that need the lock must be under contract
+// (so that its lock obligations are generated): listed here.
+//@ scan[C09.registry.users] C09 extcalls github.com/risor-io/risor/object.typeConverters,github.com/risor-io/risor/object.goTypeRegistry,github.com/risor-io/risor/object.getTypeConverter,github.com/risor-io/risor/object.createTypeConverter,github.com/risor-io/risor/object.newGoType,github.com/risor-io/risor/object.newStructConverter,github.com/risor-io/risor/object.(*GoType).GetConverter: (*GoType).GetConverter (*GoType).getConverter (*Proxy).call NewGoType NewTypeConverter SetTypeConverter createTypeConverter getTypeConverter init newArrayConverter newGoField newGoMethod newGoType newMapConverter newPointerConverter newSliceConverter newStructConverter
+
+// GetConverter takes the lock itself (KF-32 fixed); getConverter is the variant for callers that hold it.
+//@ func (*GoType).GetConverter
+//@ props C09
+//@ assume[types.nonnil] t != nil && goTypeMutex != nil
+//@ requires[C09.unlocked] !ghost("lock.w", bool, goTypeMutex) && !ghost("lock.r", bool, goTypeMutex)
+//@ modcomps H_ E_ M G_object_typeConverters G_object_goTypeRegistry
+//@ modifies ghost("lock.w", bool, goTypeMutex), ghost("lock.r", bool, goTypeMutex)
+//@ assumeframe
+//@ ensures[C09.released] !ghost("lock.w", bool, goTypeMutex) && !ghost("lock.r", bool, goTypeMutex)
+
+//@ func (*GoType).getConverter
+//@ props C09
+//@ assume[types.nonnil] t != nil
+//@ requires[C09.lock] ghost("lock.w", bool, goTypeMutex)
+//@ modcomps H_ E_ M G_object_typeConverters G_object_goTypeRegistry
+//@ assumeframe
+
+//@ func newGoField
+//@ props C09
+//@ requires[C09.lock] ghost("lock.w", bool, goTypeMutex)
+//@ modcomps H_ E_ M G_object_typeConverters G_object_goTypeRegistry
+//@ assumeframe
+
+//@ func newGoMethod
+//@ props C09
+//@ requires[C09.lock] ghost("lock.w", bool, goTypeMutex)
+//@ modcomps H_ E_ M G_object_typeConverters G_object_goTypeRegistry
+//@ assumeframe
+
+// A proxied method call runs without the lock and takes it (through GetConverter) once per parameter / result.
+//@ func (*Proxy).call
+//@ props C09
+//@ requires p != nil && m != nil && goTypeMutex != nil
+//@ requires[C09.unlocked] !ghost("lock.w", bool, goTypeMutex) && !ghost("lock.r", bool, goTypeMutex)
+//@ havoc Interface
+//@ invariant 1: !ghost("lock.w", bool, goTypeMutex) && !ghost("lock.r", bool, goTypeMutex)
+//@ invariant 2: !ghost("lock.w", bool, goTypeMutex) && !ghost("lock.r", bool, goTypeMutex)
+//@ invariant 3: !ghost("lock.w", bool, goTypeMutex) && !ghost("lock.r", bool, goTypeMutex)
+//@ invariant 4: !ghost("lock.w", bool, goTypeMutex) && !ghost("lock.r", bool, goTypeMutex)
+//@ modcomps H_ E_ M G_ C_
+//@ modifies ghost("lock.w", bool, goTypeMutex), ghost("lock.r", bool, goTypeMutex)
+//@ assumeframe
+//@ ensures[C09.released] !ghost("lock.w", bool, goTypeMutex) && !ghost("lock.r", bool, goTypeMutex)
+
+// Shared metadata objects are immutable once built (they are cached in the registries and used by every VM):
+// converter objects are written only by their constructors; a GoType only while it is being registered
+// (newGoType, under the lock) and by getConverter (under the lock); GoField / GoMethod only by their constructors.
+//@ scan[C09.immutable.MapConverter] C09 fieldwriters MapConverter.*: newMapConverter
+//@ scan[C09.immutable.SliceConverter] C09 fieldwriters SliceConverter.*: newSliceConverter
+//@ scan[C09.immutable.ArrayConverter] C09 fieldwriters ArrayConverter.*: newArrayConverter
+//@ scan[C09.immutable.PointerConverter] C09 fieldwriters PointerConverter.*: newPointerConverter
+//@ scan[C09.immutable.StructConverter] C09 fieldwriters StructConverter.*: newStructConverter
+//@ scan[C09.immutable.GoType] C09 fieldwriters GoType.*: newGoType getConverter
+//@ scan[C09.immutable.GoField] C09 fieldwriters GoField.*: newGoField
+//@ scan[C09.immutable.GoMethod] C09 fieldwriters GoMethod.*: newGoMethod
+
+// Assumed frames of two constructors used while wrapping compiled code (they build fresh objects).
+//@ func NewFunction
+//@ trusted
+//@ modifies nothing
+//@ ensures result != nil && fresh(result)
+//@ func NewString
+//@ trusted
+//@ modifies nothing
+//@ ensures result != nil && fresh(result) && result.value == s
+
+// ---- C11: module attributes ------------------------------------------------------------------------------------
+// mattr(m, n): the attribute n of module m in the current state (nil when absent); mhasattr: whether it exists.
+//@ spec mhasattr(m, n) = haskey(m.builtins, n) || haskey(m.globalsIndex, n)
+//@ spec mattr(m, n) = ite(haskey(m.builtins, n), m.builtins[n], m.globals[m.globalsIndex[n]])
+
+//@ func (*Module).GetAttr
+//@ props C11
+//@ assume[recv.nonnil] m != nil
+//@ ensures[C11.getattr.found] name != "__name__" && mhasattr(m, name) ==> result1 && (haskey(m.builtins, name) ==> result0 == m.builtins[name])
+//@ assume[module.index] forallA(k, string, haskey(m.globalsIndex, k) ==> 0 <= m.globalsIndex[k] && m.globalsIndex[k] < len(m.globals))
+//@ ensures[C11.getattr.global] name != "__name__" && !haskey(m.builtins, name) && haskey(m.globalsIndex, name) ==> result1 && result0 == m.globals[m.globalsIndex[name]]
+//@ ensures[C11.getattr.absent] name != "__name__" && !mhasattr(m, name) ==> !result1 && result0 == nil
+
+// Override(name, nil) removes the attribute; Override(name, v) replaces an existing one; nothing else changes.
+//@ func (*Module).Override
+//@ props C11
+//@ assume[recv.nonnil] m != nil
+//@ assume[module.disjoint] forallA(k, string, !(haskey(m.builtins, k) && haskey(m.globalsIndex, k)))
+//@ modifies mapof(m.builtins), mapof(m.globalsIndex), elems(m.globals)
+//@ ensures[C11.override.delete] value == nil && name != "__name__" ==> !mhasattr(m, name)
+//@ ensures[C11.override.set] value != nil && name != "__name__" && old(haskey(m.builtins, name)) ==> haskey(m.builtins, name) && m.builtins[name] == value
+//@ ensures[C11.override.others] forallA(k, string, k != name ==> haskey(m.builtins, k) == old(haskey(m.builtins, k)) && haskey(m.globalsIndex, k) == old(haskey(m.globalsIndex, k)) && m.builtins[k] == old(m.builtins[k]))
+//@ ensures[C11.override.noadd] !old(mhasattr(m, name)) ==> !mhasattr(m, name)
+
+// ---- C10: a spawned call gets its own copy of the argument values ------------------------------------------------
+// Every call of the spawn function passes a freshly allocated slice that holds exactly the caller's argument
+// values (so later writes to the caller's slice cannot reach the spawned call).
+//@ func Spawn
+//@ props C10
+//@ dyncall[C10.spawn.argscopy] SpawnFunc: fresh(arg2) && len(arg2) == len(args) && forall(k, 0, len(args), arg2[k] == args[k])
+//@ dyncall[C10.spawn.ctx] SpawnFunc: arg0 == ctx
+
+// ---- C10: the channel wrappers hand values through unchanged ------------------------------------------------------
+// Go's channel semantics (exactly once, FIFO per sender, closed channels) is assumed; what is proved is that the
+// wrappers use the Go channel faithfully: Send offers exactly the given value, once, on the wrapped channel;
+// Receive / Next return exactly what the channel delivered, Nil for a closed channel, and the context's outcome
+// otherwise.
+//@ func (*Chan).Send
+//@ props C10
+//@ requires c != nil && ctx != nil
+//@ chansend[C10.send.exact]: ch == c.value && val == value
+//@ ensures[C10.send.ok] selindex() == 1 ==> err == nil
+
+//@ func (*Chan).Receive
+//@ props C10
+//@ requires c != nil && ctx != nil
+//@ ensures[C10.recv.value] selindex() == 1 && selok() ==> result0 == selrecv(1) && result1 == nil
+//@ ensures[C10.recv.closed] selindex() == 1 && !selok() ==> result0 == Nil && result1 == nil
+//@ ensures[C10.recv.cancel] selindex() == 0 ==> result0 == nil
+
+// C11: a module's attribute tables and a builtin's back-reference to its module (__module__) are set up together by
+// the listed constructors (NewBuiltinsModule points every builtin it is given at the new module) and changed only
+// by Override / UseGlobals; any other code that builds or rewires a module must be added here with its own
+// argument for why `builtin.__module__` is still the module the script reached the builtin through.
+//@ scan[C11.module.writers] C11 fieldwriters Module.*: object.(*Module).Override object.(*Module).UseGlobals object.NewBuiltinsModule object.NewModule
+//@ scan[C11.builtin.module.writers] C11 fieldwriters Builtin.module: object.NewBuiltin object.NewBuiltinsModule object.NewNoopBuiltin
+
+// Next (iteration over a channel): a delivered value - whatever it is, including a nil object that was sent - is
+// returned with true; only a closed channel or a finished context ends the iteration.
+//@ func (*Chan).Next
+//@ props C10
+//@ requires c != nil && ctx != nil
+//@ ensures[C10.next.value] selindex() == 1 && selok() ==> result0 == selrecv(1) && result1
+//@ ensures[C10.next.closed] selindex() == 1 && !selok() ==> result0 == nil && !result1
+//@ ensures[C10.next.cancel] selindex() == 0 ==> result0 == nil && !result1
+
+// Iter: the iterator of a channel is a fresh object over the same Go channel, so the per-iteration state that Next
+// stores for Entry (lastReceived, rxCount) is private to one loop (KF-36 fixed).
+//@ func (*Chan).Iter
+//@ props C10
+//@ requires c != nil
+//@ ensures[C10.iter.private] typeof(result) == *Chan && fresh(result) && result.(*Chan).value == c.value && result.(*Chan).lastReceived == nil && result.(*Chan).rxCount == 0
+
+// ---- C05: sets enumerate in hash-key order ------------------------------------------------------------------------
+// HashKey() is a function of the object (assumed for every Hashable). SortedItems returns every element once,
+// sorted by (Type, IntValue, StrValue, FltValue) lexicographically - a total order on the keys of one set (keys of
+// a Go map are pairwise different; NaN float keys are outside this argument).
+//@ func (Hashable).HashKey
+//@ trusted
+//@ modifies nothing
+//@ ensures same(result, uf("HASHKEY", HashKey, self))
+
+//@ spec hk(x) = uf("HASHKEY", HashKey, x)
+//@ spec hkless(a, b) = ite(hk(a).Type != hk(b).Type, hk(a).Type < hk(b).Type, ite(hk(a).IntValue != hk(b).IntValue, hk(a).IntValue < hk(b).IntValue, ite(hk(a).StrValue != hk(b).StrValue, hk(a).StrValue < hk(b).StrValue, ite(hk(a).FltValue != hk(b).FltValue, hk(a).FltValue < hk(b).FltValue, false))))
+
+//@ func (*Set).SortedItems
+//@ props C05
+//@ requires s != nil
+//@ assume[set.items.hashable] forallT(k, HashKey, haskey(s.items, k) ==> s.items[k] != nil && implements(s.items[k], Hashable))
+//@ modifies nothing
+//@ invariant 1: len(items) == iter && fresh(items) && forall(j, 0, len(items), items[j] != nil && implements(items[j], Hashable))
+//@ sortby[C05.setitems.less] 1: hkless(items[i], items[j])
+//@ ensures[C05.setitems.sorted] forall(a, 0, len(result), forall(b, a + 1, len(result), !hkless(result[b], result[a])))
+//@ ensures[C05.setitems.all] len(result) == len(s.items) && fresh(result)
+
+// Membership and element removal against the map model (C16): keyed by the element's hash key.
+//@ func (*Set).Contains
+//@ props C16
+//@ requires s != nil && key != nil && ref(key) != nil
+//@ modifies nothing
+//@ ensures[C16.set.contains] implements(key, Hashable) ==> result == ite(haskey(s.items, hk(key)), True, False)
+//@ ensures[C16.set.contains.unhashable] !implements(key, Hashable) ==> result == False
+
+//@ func (*Set).DelItem
+//@ props C16
+//@ requires s != nil && key != nil && ref(key) != nil && s.items != nil
+//@ modifies mapof(s.items)
+//@ ensures[C16.set.delitem] implements(key, Hashable) ==> result == nil && forallA(k, HashKey, haskey(s.items, k) == (old(haskey(s.items, k)) && !same(k, hk(key))) && (haskey(s.items, k) ==> s.items[k] == old(s.items[k])))
+//@ ensures[C16.set.delitem.unhashable] !implements(key, Hashable) ==> result != nil && forallA(k, HashKey, haskey(s.items, k) == old(haskey(s.items, k)))
